@@ -136,10 +136,9 @@ for n, lens in ((1, (1,)), (2, (2, 3, 4, 5)), (3, (3, 4, 5))):
                        "calculate_score: prefer_prefix raises the score by 0..=8 (exactly 8 at position 0)", unwind=max(h + 3, 7), bound=bound, cost=2)
 U("c10-prefix-term-no-overflow", "score", "c10_prefix_term_no_overflow", {"C10": "quick", "C04": "quick"}, "complete", SCORE_FNS,
   "for every match start position < 24000 (beyond the u16/3 threshold 21846; all base configs, prefer_prefix on): calculate_score's prefix term neither overflows nor leaves 16..=44 for a one-character match")
-for n in (2520, 2521, 2600):
-    UC("c03-cs-long-needle-%d" % n, "score", "cs_long_needle_no_wrap::<%d>()" % n, {"C03": "quick" if n == 2521 else "thorough", "C10": "quick" if n == 2521 else "thorough"}, "bounded", SCORE_FNS,
-       "calculate_score on %d consecutive matches: no arithmetic overflow, result == unwrapped value capped at u16::MAX" % n, unwind=n + 3,
-       bound="one concrete input: haystack == needle == 'a' x %d (the witness family of the Verus row bound)" % n, cost=2, timeout=1500)
+U("c03-long-needle-no-wrap", None, None, {"C03": "quick", "C10": "quick"}, "bounded", ["Matcher::calculate_score", "Matcher::fuzzy_match", "Matcher::exact_match", "Matcher::substring_match", "Matcher::prefix_match", "Matcher::fuzzy_match_greedy"],
+  "native replay of the witness family derived from the Verus row bound: haystack == needle == 'a' x n for n in {2520, 2521, 2522, 2600, 5000, 70000} through five entry points: no overflow panic, score == 36 + 26 (n-1) capped at u16::MAX (never wrapped)",
+  bound="six concrete lengths x five entry points, DEFAULT config; plain cargo test (debug build) on the scratch copy", engine="native", native_file="native/long_needle.rs", inject="matcher/src/lib.rs", pkg="nucleo-matcher", test="verif_native_long_needle_no_wrap", no_cover=True)
 UC("c03-cs-canary", "score", "cs_canary()", {"C03": "quick", "C02": "quick"}, "bounded", [], "canary", unwind=8, expect="fail", no_cover=True)
 
 # prefilter (ASCII), greedy, optimal, exact: bounded
